@@ -125,7 +125,7 @@ def l1(ctx):
                                 callee_locks = True
             what = "/".join(F.callee_names(fi, n)[:1]) or ("raise " + "/".join(sorted(dec)))
             obs.append(ctx.ob(locked_here or callee_locks, fi.qualname, where(fi, n),
-                              "%s decided at %s under the index lock" % ("/".join(sorted(dec)), what),
+                              "%s decided at %s under the index lock" % ("/".join(sorted(dec)), what if not what.startswith("raise ") else "raise"),
                               "decision read is inside the critical section",
                               "`%s` decides %s from a read made BEFORE `with locked_index` is entered: two conditional writes against the "
                               "same ETag (or two creates with one UID) can both pass the check and then serialise on the lock, both succeeding"
